@@ -1,29 +1,7 @@
 
-(** val negb : bool -> bool **)
-
-let negb = function
-| true -> false
-| false -> true
-
 type nat =
 | O
 | S of nat
-
-(** val option_map : ('a1 -> 'a2) -> 'a1 option -> 'a2 option **)
-
-let option_map f = function
-| Some a -> Some (f a)
-| None -> None
-
-(** val fst : ('a1 * 'a2) -> 'a1 **)
-
-let fst = function
-| (x, _) -> x
-
-(** val snd : ('a1 * 'a2) -> 'a2 **)
-
-let snd = function
-| (_, y) -> y
 
 (** val length : 'a1 list -> nat **)
 
@@ -47,13 +25,6 @@ module Coq__1 = struct
 end
 include Coq__1
 
-(** val mul : nat -> nat -> nat **)
-
-let rec mul n0 m =
-  match n0 with
-  | O -> O
-  | S p -> add m (mul p m)
-
 (** val sub : nat -> nat -> nat **)
 
 let rec sub n0 m =
@@ -65,26 +36,6 @@ let rec sub n0 m =
 
 module Nat =
  struct
-  (** val sub : nat -> nat -> nat **)
-
-  let rec sub n0 m =
-    match n0 with
-    | O -> n0
-    | S k -> (match m with
-              | O -> n0
-              | S l -> sub k l)
-
-  (** val eqb : nat -> nat -> bool **)
-
-  let rec eqb n0 m =
-    match n0 with
-    | O -> (match m with
-            | O -> true
-            | S _ -> false)
-    | S n' -> (match m with
-               | O -> false
-               | S m' -> eqb n' m')
-
   (** val leb : nat -> nat -> bool **)
 
   let rec leb n0 m =
@@ -116,52 +67,7 @@ module Nat =
     | S n' -> (match m with
                | O -> O
                | S m' -> S (min n' m'))
-
-  (** val divmod : nat -> nat -> nat -> nat -> nat * nat **)
-
-  let rec divmod x y q u =
-    match x with
-    | O -> (q, u)
-    | S x' ->
-      (match u with
-       | O -> divmod x' y (S q) y
-       | S u' -> divmod x' y q u')
-
-  (** val div : nat -> nat -> nat **)
-
-  let div x y = match y with
-  | O -> y
-  | S y' -> fst (divmod x y' O y')
-
-  (** val modulo : nat -> nat -> nat **)
-
-  let modulo x = function
-  | O -> x
-  | S y' -> sub y' (snd (divmod x y' O y'))
  end
-
-(** val nth : nat -> 'a1 list -> 'a1 -> 'a1 **)
-
-let rec nth n0 l default =
-  match n0 with
-  | O -> (match l with
-          | [] -> default
-          | x :: _ -> x)
-  | S m -> (match l with
-            | [] -> default
-            | _ :: t -> nth m t default)
-
-(** val rev : 'a1 list -> 'a1 list **)
-
-let rec rev = function
-| [] -> []
-| x :: l' -> app (rev l') (x :: [])
-
-(** val map : ('a1 -> 'a2) -> 'a1 list -> 'a2 list **)
-
-let rec map f = function
-| [] -> []
-| a :: t -> (f a) :: (map f t)
 
 (** val firstn : nat -> 'a1 list -> 'a1 list **)
 
@@ -180,6 +86,12 @@ let rec skipn n0 l =
   | S n1 -> (match l with
              | [] -> []
              | _ :: l0 -> skipn n1 l0)
+
+(** val repeat : 'a1 -> nat -> 'a1 list **)
+
+let rec repeat x = function
+| O -> []
+| S k -> x :: (repeat x k)
 
 type positive =
 | XI of positive
@@ -366,90 +278,25 @@ module Z =
   | Npos p -> Zpos p
  end
 
-(** val split_at : z -> z list -> z list -> z list list * z list **)
-
-let rec split_at d bs cur =
-  match bs with
-  | [] -> ([], (rev cur))
-  | b :: r ->
-    if Z.eqb b d
-    then let (rs, t) = split_at d r [] in (((rev cur) :: rs), t)
-    else split_at d r (b :: cur)
-
-(** val strip_cr : z list -> z list **)
-
-let strip_cr l =
-  match rev l with
-  | [] -> l
-  | z0 :: r ->
-    (match z0 with
-     | Zpos p ->
-       (match p with
-        | XI p0 ->
-          (match p0 with
-           | XO p1 ->
-             (match p1 with
-              | XI p2 -> (match p2 with
-                          | XH -> rev r
-                          | _ -> l)
-              | _ -> l)
-           | _ -> l)
-        | _ -> l)
-     | _ -> l)
-
-(** val records : z -> bool -> z list -> z list list **)
-
-let records d cr bs =
-  let (rs, t) = split_at d bs [] in
-  app (map (if cr then strip_cr else (fun x -> x)) rs)
-    (match t with
-     | [] -> []
-     | _ :: _ -> t :: [])
-
-(** val fp_init_add : nat **)
-
-let fp_init_add =
-  S O
-
-(** val fp_init_min_pages : nat **)
-
-let fp_init_min_pages =
-  S (S O)
-
-(** val fp_mmap_grow : nat **)
-
-let fp_mmap_grow =
-  S (S O)
-
-(** val fp_read_grow : nat **)
-
-let fp_read_grow =
-  S (S O)
-
-(** val fp_eof_read_return : nat **)
-
-let fp_eof_read_return =
-  O
-
-(** val fp_cr_byte : z **)
-
-let fp_cr_byte =
-  Zpos (XI (XO (XI XH)))
-
-(** val fp_cr_subtract : nat **)
-
-let fp_cr_subtract =
-  S O
-
-(** val fp_cr_else : nat **)
-
-let fp_cr_else =
-  O
-
 (** val rc_magic_size : nat **)
 
 let rc_magic_size =
   S (S (S (S (S (S O)))))
+
+(** val wr_min_progress : nat **)
+
+let wr_min_progress =
+  S O
+
+(** val bs_buffer_size : n **)
+
+let bs_buffer_size =
+  Npos (XO (XO (XO (XO (XO (XO (XO (XO (XO (XO (XO (XO (XO XH)))))))))))))
+
+(** val tbs_block_size : n **)
+
+let tbs_block_size =
+  Npos (XO (XO (XO (XO (XO (XO (XO (XO (XO (XO (XO (XO (XO XH)))))))))))))
 
 (** val rc_magic_gz : z list **)
 
@@ -484,6 +331,11 @@ type os = { os_src : z list; os_script : outcome list;
 
 let os_trace o =
   o.os_trace
+
+(** val os_sink : os -> z list **)
+
+let os_sink o =
+  o.os_sink
 
 (** val os_init : z list -> outcome list -> os **)
 
@@ -525,6 +377,24 @@ let sys_read n0 o =
      let l = firstn m o.os_src in
      ((SData l), { os_src = (skipn m o.os_src); os_script = rest; os_trace =
      ((n0, (Z.of_nat (length l))) :: o.os_trace); os_sink = o.os_sink }))
+
+(** val sys_write : z list -> os -> sysres * os **)
+
+let sys_write data o =
+  let n0 = length data in
+  let (oc, rest) = next_outcome o in
+  (match oc with
+   | Eintr ->
+     (SEintr, { os_src = o.os_src; os_script = rest; os_trace = ((n0, (Zneg
+       XH)) :: o.os_trace); os_sink = o.os_sink })
+   | Err e ->
+     ((SErr e), { os_src = o.os_src; os_script = rest; os_trace = ((n0, (Zneg
+       (XO XH))) :: o.os_trace); os_sink = o.os_sink })
+   | _ ->
+     let m = granted oc n0 in
+     let l = firstn m data in
+     ((SData l), { os_src = o.os_src; os_script = rest; os_trace = ((n0,
+     (Z.of_nat (length l))) :: o.os_trace); os_sink = (app o.os_sink l) }))
 
 type ioerr =
 | EFuel
@@ -582,6 +452,256 @@ let rec read_or_eof_loop fuel remaining acc o =
 let read_or_eof amount o =
   read_or_eof_loop (S amount) amount [] o
 
+(** val read_or_throw_loop : nat -> nat -> z list -> os -> z list res * os **)
+
+let rec read_or_throw_loop fuel amount acc o =
+  match amount with
+  | O -> ((Ok acc), o)
+  | S _ ->
+    (match fuel with
+     | O -> ((Fail EFuel), o)
+     | S f ->
+       let (r, o') = partial_read amount o in
+       (match r with
+        | Ok l ->
+          (match l with
+           | [] -> ((Fail EEndOfFile), o')
+           | _ :: _ ->
+             read_or_throw_loop f (sub amount (length l)) (app acc l) o')
+        | Fail e -> ((Fail e), o')))
+
+(** val read_or_throw : nat -> os -> z list res * os **)
+
+let read_or_throw amount o =
+  read_or_throw_loop (S amount) amount [] o
+
+(** val write_retry : nat -> z list -> os -> z list res * os **)
+
+let rec write_retry fuel data o =
+  match fuel with
+  | O -> ((Fail EFuel), o)
+  | S f ->
+    let (s, o') = sys_write data o in
+    (match s with
+     | SData l -> ((Ok l), o')
+     | SEintr -> write_retry f data o'
+     | SErr e -> ((Fail (EErrno e)), o'))
+
+(** val write_or_throw_loop : nat -> z list -> os -> unit res * os **)
+
+let rec write_or_throw_loop fuel data o =
+  match data with
+  | [] -> ((Ok ()), o)
+  | _ :: _ ->
+    (match fuel with
+     | O -> ((Fail EFuel), o)
+     | S f ->
+       let (r, o') = write_retry (eintr_fuel o) data o in
+       (match r with
+        | Ok l ->
+          if Nat.ltb (length l) wr_min_progress
+          then ((Fail EWriteZero), o')
+          else write_or_throw_loop f (skipn (length l) data) o'
+        | Fail e -> ((Fail e), o')))
+
+(** val write_or_throw : z list -> os -> unit res * os **)
+
+let write_or_throw data o =
+  write_or_throw_loop (S (length data)) data o
+
+(** val sys_pread : nat -> nat -> z list -> os -> sysres * os **)
+
+let sys_pread n0 off file o =
+  let (oc, rest) = next_outcome o in
+  (match oc with
+   | Eintr ->
+     (SEintr, { os_src = o.os_src; os_script = rest; os_trace = ((n0, (Zneg
+       XH)) :: o.os_trace); os_sink = o.os_sink })
+   | Err e ->
+     ((SErr e), { os_src = o.os_src; os_script = rest; os_trace = ((n0, (Zneg
+       (XO XH))) :: o.os_trace); os_sink = o.os_sink })
+   | _ ->
+     let l = firstn (granted oc n0) (skipn off file) in
+     ((SData l), { os_src = o.os_src; os_script = rest; os_trace = ((n0,
+     (Z.of_nat (length l))) :: o.os_trace); os_sink = o.os_sink }))
+
+(** val ersatz_pread_loop :
+    nat -> nat -> nat -> z list -> z list -> os -> z list res * os **)
+
+let rec ersatz_pread_loop fuel size off file acc o =
+  match size with
+  | O -> ((Ok acc), o)
+  | S _ ->
+    (match fuel with
+     | O -> ((Fail EFuel), o)
+     | S f ->
+       let (s, o') = sys_pread size off file o in
+       (match s with
+        | SData l ->
+          (match l with
+           | [] -> ((Fail EEndOfFile), o')
+           | _ :: _ ->
+             ersatz_pread_loop f (sub size (length l)) (add off (length l))
+               file (app acc l) o')
+        | SEintr -> ersatz_pread_loop f size off file acc o'
+        | SErr e -> ((Fail (EErrno e)), o')))
+
+(** val ersatz_pread : nat -> nat -> z list -> os -> z list res * os **)
+
+let ersatz_pread size off file o =
+  ersatz_pread_loop (add (S size) (length o.os_script)) size off file [] o
+
+(** val overwrite : z list -> nat -> z list -> z list **)
+
+let overwrite file off l =
+  let padded = app file (repeat Z0 (sub off (length file))) in
+  app (firstn off padded) (app l (skipn (add off (length l)) padded))
+
+(** val sys_pwrite :
+    z list -> nat -> z list -> os -> (sysres * os) * z list **)
+
+let sys_pwrite data off file o =
+  let n0 = length data in
+  let (oc, rest) = next_outcome o in
+  (match oc with
+   | Eintr ->
+     ((SEintr, { os_src = o.os_src; os_script = rest; os_trace = ((n0, (Zneg
+       XH)) :: o.os_trace); os_sink = o.os_sink }), file)
+   | Err e ->
+     (((SErr e), { os_src = o.os_src; os_script = rest; os_trace = ((n0,
+       (Zneg (XO XH))) :: o.os_trace); os_sink = o.os_sink }), file)
+   | _ ->
+     let l = firstn (granted oc n0) data in
+     (((SData l), { os_src = o.os_src; os_script = rest; os_trace = ((n0,
+     (Z.of_nat (length l))) :: o.os_trace); os_sink = o.os_sink }),
+     (overwrite file off l)))
+
+(** val ersatz_pwrite_loop :
+    nat -> z list -> nat -> z list -> os -> z list res * os **)
+
+let rec ersatz_pwrite_loop fuel data off file o =
+  match data with
+  | [] -> ((Ok file), o)
+  | _ :: _ ->
+    (match fuel with
+     | O -> ((Fail EFuel), o)
+     | S f ->
+       let (p, file') = sys_pwrite data off file o in
+       let (s, o') = p in
+       (match s with
+        | SData l ->
+          (match l with
+           | [] -> ((Fail EEndOfFile), o')
+           | _ :: _ ->
+             ersatz_pwrite_loop f (skipn (length l) data)
+               (add off (length l)) file' o')
+        | SEintr -> ersatz_pwrite_loop f data off file' o'
+        | SErr e -> ((Fail (EErrno e)), o')))
+
+(** val ersatz_pwrite : z list -> nat -> z list -> os -> z list res * os **)
+
+let ersatz_pwrite data off file o =
+  ersatz_pwrite_loop (add (S (length data)) (length o.os_script)) data off
+    file o
+
+type bstream = { bs_buf : z list; bs_cap : nat }
+
+(** val bs_spill : bstream -> os -> bstream res * os **)
+
+let bs_spill b o =
+  match b.bs_buf with
+  | [] -> ((Ok b), o)
+  | _ :: _ ->
+    let (r, o') = write_or_throw b.bs_buf o in
+    (match r with
+     | Ok _ -> ((Ok { bs_buf = []; bs_cap = b.bs_cap }), o')
+     | Fail e -> ((Fail e), o'))
+
+(** val bs_write : z list -> bstream -> os -> bstream res * os **)
+
+let bs_write data b o =
+  if Nat.leb (add (length b.bs_buf) (length data)) b.bs_cap
+  then ((Ok { bs_buf = (app b.bs_buf data); bs_cap = b.bs_cap }), o)
+  else let (r, o') = bs_spill b o in
+       (match r with
+        | Ok b' ->
+          if Nat.leb (add (length b'.bs_buf) (length data)) b'.bs_cap
+          then ((Ok { bs_buf = (app b'.bs_buf data); bs_cap = b'.bs_cap }),
+                 o')
+          else let (r0, o'') = write_or_throw data o' in
+               (match r0 with
+                | Ok _ -> ((Ok b'), o'')
+                | Fail e -> ((Fail e), o''))
+        | Fail e -> ((Fail e), o'))
+
+(** val bs_flush : bstream -> os -> bstream res * os **)
+
+let bs_flush =
+  bs_spill
+
+(** val bs_run : z list list -> bstream -> os -> bstream res * os **)
+
+let rec bs_run ws b o =
+  match ws with
+  | [] -> bs_flush b o
+  | w :: r ->
+    let (r0, o') = bs_write w b o in
+    (match r0 with
+     | Ok b' -> bs_run r b' o'
+     | Fail e -> ((Fail e), o'))
+
+(** val tbs_write :
+    nat -> z list -> z list -> nat -> (z list list * z list) res **)
+
+let rec tbs_write fuel data buf bsize =
+  match fuel with
+  | O -> Fail EFuel
+  | S f ->
+    if Nat.leb (add (length buf) (length data)) bsize
+    then Ok ([], (app buf data))
+    else let room = sub bsize (length buf) in
+         let full = app buf (firstn room data) in
+         (match full with
+          | [] -> Fail EFuel
+          | _ :: _ ->
+            (match tbs_write f (skipn room data) [] bsize with
+             | Ok a -> let (blocks, buf') = a in Ok ((full :: blocks), buf')
+             | Fail e -> Fail e))
+
+(** val tbs_blocks : z list list -> z list -> nat -> z list list res **)
+
+let rec tbs_blocks ws buf bsize =
+  match ws with
+  | [] -> Ok (match buf with
+              | [] -> []
+              | _ :: _ -> buf :: [])
+  | w :: r ->
+    (match tbs_write (add (length w) (S (S O))) w buf bsize with
+     | Ok a ->
+       let (blocks, buf') = a in
+       (match tbs_blocks r buf' bsize with
+        | Ok more -> Ok (app blocks more)
+        | Fail e -> Fail e)
+     | Fail e -> Fail e)
+
+(** val write_blocks : z list list -> os -> unit res * os **)
+
+let rec write_blocks blocks o =
+  match blocks with
+  | [] -> ((Ok ()), o)
+  | b :: r ->
+    let (r0, o') = write_or_throw b o in
+    (match r0 with
+     | Ok _ -> write_blocks r o'
+     | Fail e -> ((Fail e), o'))
+
+(** val tbs_run : z list list -> nat -> os -> unit res * os **)
+
+let tbs_run ws bsize o =
+  match tbs_blocks ws [] bsize with
+  | Ok blocks -> write_blocks blocks o
+  | Fail e -> ((Fail e), o)
+
 type rcstate =
 | RcHeader of z list
 | RcFd
@@ -635,342 +755,38 @@ let rc_read amount rc o =
       (skipn amount o.os_src); os_script = o.os_script; os_trace =
       o.os_trace; os_sink = o.os_sink })
 
-type fp = { fp_buf : z list; fp_pos : nat; fp_cap : nat; fp_at_end : 
-            bool; fp_moff : nat; fp_fallback : bool; fp_mapped : bool;
-            fp_rc : rcstate; fp_os : os; fp_file : z list; fp_page : 
-            nat; fp_maps : (nat * nat) list }
+(** val rc_read_or_eof_loop :
+    nat -> nat -> z list -> rcstate -> os -> (z list res * rcstate) * os **)
 
-(** val fp_os : fp -> os **)
+let rec rc_read_or_eof_loop fuel amount acc rc o =
+  match amount with
+  | O -> (((Ok acc), rc), o)
+  | S _ ->
+    (match fuel with
+     | O -> (((Fail EFuel), rc), o)
+     | S f ->
+       let (p, o') = rc_read amount rc o in
+       let (r, rc') = p in
+       (match r with
+        | Ok l ->
+          (match l with
+           | [] -> (((Ok acc), rc'), o')
+           | _ :: _ ->
+             rc_read_or_eof_loop f (sub amount (length l)) (app acc l) rc' o')
+        | Fail e -> (((Fail e), rc'), o')))
 
-let fp_os f =
-  f.fp_os
+(** val rc_read_or_eof :
+    nat -> rcstate -> os -> (z list res * rcstate) * os **)
 
-(** val fp_maps : fp -> (nat * nat) list **)
+let rc_read_or_eof amount rc o =
+  rc_read_or_eof_loop (S amount) amount [] rc o
 
-let fp_maps f =
-  f.fp_maps
+(** val rc_open_read_or_eof : nat -> os -> z list res * os **)
 
-(** val set_pos : fp -> nat -> fp **)
-
-let set_pos s p =
-  { fp_buf = s.fp_buf; fp_pos = p; fp_cap = s.fp_cap; fp_at_end =
-    s.fp_at_end; fp_moff = s.fp_moff; fp_fallback = s.fp_fallback;
-    fp_mapped = s.fp_mapped; fp_rc = s.fp_rc; fp_os = s.fp_os; fp_file =
-    s.fp_file; fp_page = s.fp_page; fp_maps = s.fp_maps }
-
-(** val initial_cap : nat -> nat -> nat **)
-
-let initial_cap page min_buffer =
-  mul page
-    (Nat.max (add (Nat.div min_buffer page) fp_init_add) fp_init_min_pages)
-
-(** val read_shift : fp -> fp res **)
-
-let read_shift s =
-  if Nat.eqb s.fp_pos (length s.fp_buf)
-  then let p = ([], O) in
-       let moff1 = add s.fp_moff (length s.fp_buf) in
-       let (buf1, pos1) = p in
-       let already = length buf1 in
-       if Nat.eqb already s.fp_cap
-       then if Nat.eqb pos1 O
-            then let p0 = (buf1, pos1) in
-                 let cap2 = mul s.fp_cap fp_read_grow in
-                 let (buf2, pos2) = p0 in
-                 let (p1, o') =
-                   rc_read (sub cap2 (length buf2)) s.fp_rc s.fp_os
-                 in
-                 let (r, rc') = p1 in
-                 (match r with
-                  | Ok l ->
-                    Ok { fp_buf = (app buf2 l); fp_pos = pos2; fp_cap = cap2;
-                      fp_at_end =
-                      (if Nat.eqb (length l) fp_eof_read_return
-                       then true
-                       else s.fp_at_end); fp_moff = moff1; fp_fallback =
-                      s.fp_fallback; fp_mapped = s.fp_mapped; fp_rc = rc';
-                      fp_os = o'; fp_file = s.fp_file; fp_page = s.fp_page;
-                      fp_maps = s.fp_maps }
-                  | Fail e -> Fail e)
-            else let p0 = ((skipn pos1 buf1), O) in
-                 let cap2 = s.fp_cap in
-                 let (buf2, pos2) = p0 in
-                 let (p1, o') =
-                   rc_read (sub cap2 (length buf2)) s.fp_rc s.fp_os
-                 in
-                 let (r, rc') = p1 in
-                 (match r with
-                  | Ok l ->
-                    Ok { fp_buf = (app buf2 l); fp_pos = pos2; fp_cap = cap2;
-                      fp_at_end =
-                      (if Nat.eqb (length l) fp_eof_read_return
-                       then true
-                       else s.fp_at_end); fp_moff = moff1; fp_fallback =
-                      s.fp_fallback; fp_mapped = s.fp_mapped; fp_rc = rc';
-                      fp_os = o'; fp_file = s.fp_file; fp_page = s.fp_page;
-                      fp_maps = s.fp_maps }
-                  | Fail e -> Fail e)
-       else let p0 = (buf1, pos1) in
-            let cap2 = s.fp_cap in
-            let (buf2, pos2) = p0 in
-            let (p1, o') = rc_read (sub cap2 (length buf2)) s.fp_rc s.fp_os in
-            let (r, rc') = p1 in
-            (match r with
-             | Ok l ->
-               Ok { fp_buf = (app buf2 l); fp_pos = pos2; fp_cap = cap2;
-                 fp_at_end =
-                 (if Nat.eqb (length l) fp_eof_read_return
-                  then true
-                  else s.fp_at_end); fp_moff = moff1; fp_fallback =
-                 s.fp_fallback; fp_mapped = s.fp_mapped; fp_rc = rc'; fp_os =
-                 o'; fp_file = s.fp_file; fp_page = s.fp_page; fp_maps =
-                 s.fp_maps }
-             | Fail e -> Fail e)
-  else let p = (s.fp_buf, s.fp_pos) in
-       let moff1 = s.fp_moff in
-       let (buf1, pos1) = p in
-       let already = length buf1 in
-       if Nat.eqb already s.fp_cap
-       then if Nat.eqb pos1 O
-            then let p0 = (buf1, pos1) in
-                 let cap2 = mul s.fp_cap fp_read_grow in
-                 let (buf2, pos2) = p0 in
-                 let (p1, o') =
-                   rc_read (sub cap2 (length buf2)) s.fp_rc s.fp_os
-                 in
-                 let (r, rc') = p1 in
-                 (match r with
-                  | Ok l ->
-                    Ok { fp_buf = (app buf2 l); fp_pos = pos2; fp_cap = cap2;
-                      fp_at_end =
-                      (if Nat.eqb (length l) fp_eof_read_return
-                       then true
-                       else s.fp_at_end); fp_moff = moff1; fp_fallback =
-                      s.fp_fallback; fp_mapped = s.fp_mapped; fp_rc = rc';
-                      fp_os = o'; fp_file = s.fp_file; fp_page = s.fp_page;
-                      fp_maps = s.fp_maps }
-                  | Fail e -> Fail e)
-            else let p0 = ((skipn pos1 buf1), O) in
-                 let cap2 = s.fp_cap in
-                 let (buf2, pos2) = p0 in
-                 let (p1, o') =
-                   rc_read (sub cap2 (length buf2)) s.fp_rc s.fp_os
-                 in
-                 let (r, rc') = p1 in
-                 (match r with
-                  | Ok l ->
-                    Ok { fp_buf = (app buf2 l); fp_pos = pos2; fp_cap = cap2;
-                      fp_at_end =
-                      (if Nat.eqb (length l) fp_eof_read_return
-                       then true
-                       else s.fp_at_end); fp_moff = moff1; fp_fallback =
-                      s.fp_fallback; fp_mapped = s.fp_mapped; fp_rc = rc';
-                      fp_os = o'; fp_file = s.fp_file; fp_page = s.fp_page;
-                      fp_maps = s.fp_maps }
-                  | Fail e -> Fail e)
-       else let p0 = (buf1, pos1) in
-            let cap2 = s.fp_cap in
-            let (buf2, pos2) = p0 in
-            let (p1, o') = rc_read (sub cap2 (length buf2)) s.fp_rc s.fp_os in
-            let (r, rc') = p1 in
-            (match r with
-             | Ok l ->
-               Ok { fp_buf = (app buf2 l); fp_pos = pos2; fp_cap = cap2;
-                 fp_at_end =
-                 (if Nat.eqb (length l) fp_eof_read_return
-                  then true
-                  else s.fp_at_end); fp_moff = moff1; fp_fallback =
-                 s.fp_fallback; fp_mapped = s.fp_mapped; fp_rc = rc'; fp_os =
-                 o'; fp_file = s.fp_file; fp_page = s.fp_page; fp_maps =
-                 s.fp_maps }
-             | Fail e -> Fail e)
-
-(** val transition_to_read : fp -> fp res **)
-
-let transition_to_read s =
-  let (r, o') = read_factory s.fp_os in
+let rc_open_read_or_eof amount o =
+  let (r, o') = read_factory o in
   (match r with
    | Ok rc ->
-     Ok { fp_buf = []; fp_pos = O; fp_cap = s.fp_cap; fp_at_end =
-       s.fp_at_end; fp_moff = s.fp_moff; fp_fallback = true; fp_mapped =
-       s.fp_mapped; fp_rc = rc; fp_os = o'; fp_file = s.fp_file; fp_page =
-       s.fp_page; fp_maps = s.fp_maps }
-   | Fail e -> Fail e)
-
-(** val mmap_shift : fp -> fp res **)
-
-let mmap_shift s =
-  let desired_begin = add s.fp_pos s.fp_moff in
-  let ignore = Nat.modulo desired_begin s.fp_page in
-  let cap' =
-    if (&&) (Nat.eqb s.fp_pos ignore) s.fp_mapped
-    then mul s.fp_cap fp_mmap_grow
-    else s.fp_cap
-  in
-  let mapped_offset = sub desired_begin ignore in
-  let total = length s.fp_file in
-  if Nat.leb (sub total mapped_offset) cap'
-  then let at_end' = true in
-       let mapped_size = sub total mapped_offset in
-       if Nat.eqb mapped_size O
-       then let o = s.fp_os in
-            let o1 =
-              if Nat.eqb desired_begin O
-              then o
-              else { os_src = (skipn desired_begin s.fp_file); os_script =
-                     o.os_script; os_trace = o.os_trace; os_sink = o.os_sink }
-            in
-            transition_to_read { fp_buf = []; fp_pos = O; fp_cap = cap';
-              fp_at_end = false; fp_moff = s.fp_moff; fp_fallback = false;
-              fp_mapped = s.fp_mapped; fp_rc = s.fp_rc; fp_os = o1; fp_file =
-              s.fp_file; fp_page = s.fp_page; fp_maps = ((mapped_offset,
-              mapped_size) :: s.fp_maps) }
-       else Ok { fp_buf =
-              (firstn mapped_size (skipn mapped_offset s.fp_file)); fp_pos =
-              ignore; fp_cap = cap'; fp_at_end = at_end'; fp_moff =
-              mapped_offset; fp_fallback = false; fp_mapped = true; fp_rc =
-              s.fp_rc; fp_os = s.fp_os; fp_file = s.fp_file; fp_page =
-              s.fp_page; fp_maps = ((mapped_offset,
-              mapped_size) :: s.fp_maps) }
-  else let at_end' = s.fp_at_end in
-       if Nat.eqb cap' O
-       then let o = s.fp_os in
-            let o1 =
-              if Nat.eqb desired_begin O
-              then o
-              else { os_src = (skipn desired_begin s.fp_file); os_script =
-                     o.os_script; os_trace = o.os_trace; os_sink = o.os_sink }
-            in
-            transition_to_read { fp_buf = []; fp_pos = O; fp_cap = cap';
-              fp_at_end = false; fp_moff = s.fp_moff; fp_fallback = false;
-              fp_mapped = s.fp_mapped; fp_rc = s.fp_rc; fp_os = o1; fp_file =
-              s.fp_file; fp_page = s.fp_page; fp_maps = ((mapped_offset,
-              cap') :: s.fp_maps) }
-       else Ok { fp_buf = (firstn cap' (skipn mapped_offset s.fp_file));
-              fp_pos = ignore; fp_cap = cap'; fp_at_end = at_end'; fp_moff =
-              mapped_offset; fp_fallback = false; fp_mapped = true; fp_rc =
-              s.fp_rc; fp_os = s.fp_os; fp_file = s.fp_file; fp_page =
-              s.fp_page; fp_maps = ((mapped_offset, cap') :: s.fp_maps) }
-
-(** val shift : fp -> fp res **)
-
-let shift s =
-  if s.fp_at_end
-  then Fail EEndOfFile
-  else (match if s.fp_fallback then Ok s else mmap_shift s with
-        | Ok s1 -> if s1.fp_fallback then read_shift s1 else Ok s1
-        | Fail e -> Fail e)
-
-(** val fp_open_read : nat -> os -> fp res **)
-
-let fp_open_read cap o =
-  match transition_to_read { fp_buf = []; fp_pos = O; fp_cap = cap;
-          fp_at_end = false; fp_moff = O; fp_fallback = false; fp_mapped =
-          false; fp_rc = RcFd; fp_os = o; fp_file = []; fp_page = (S O);
-          fp_maps = [] } with
-  | Ok s -> shift s
-  | Fail e -> Fail e
-
-(** val fp_open_istream : nat -> z list -> fp **)
-
-let fp_open_istream cap src =
-  { fp_buf = []; fp_pos = O; fp_cap = cap; fp_at_end = false; fp_moff = O;
-    fp_fallback = true; fp_mapped = false; fp_rc = RcIStream; fp_os =
-    (os_init src []); fp_file = []; fp_page = (S O); fp_maps = [] }
-
-(** val fp_open_file :
-    nat -> nat -> z list -> nat -> outcome list -> fp res **)
-
-let fp_open_file page cap file off script =
-  match shift { fp_buf = []; fp_pos = O; fp_cap = cap; fp_at_end = false;
-          fp_moff = off; fp_fallback = false; fp_mapped = false; fp_rc =
-          RcFd; fp_os = (os_init (skipn off file) script); fp_file = file;
-          fp_page = page; fp_maps = [] } with
-  | Ok s ->
-    if (&&)
-         ((&&) (negb s.fp_fallback)
-           (Nat.leb rc_magic_size (sub (length s.fp_buf) s.fp_pos)))
-         (detect_magic (firstn rc_magic_size (skipn s.fp_pos s.fp_buf)))
-    then Fail ECompressed
-    else Ok s
-  | Fail e -> Fail e
-
-(** val find_idx : z -> z list -> nat option **)
-
-let rec find_idx d = function
-| [] -> None
-| b :: r ->
-  if Z.eqb b d then Some O else option_map (fun x -> S x) (find_idx d r)
-
-type rl =
-| RlLine of z list
-| RlEOF
-| RlFail of ioerr
-
-(** val read_line_loop : nat -> z -> bool -> nat -> fp -> rl * fp **)
-
-let rec read_line_loop fuel d cr skip s =
-  match fuel with
-  | O -> ((RlFail EFuel), s)
-  | S f ->
-    (match find_idx d (skipn (add s.fp_pos skip) s.fp_buf) with
-     | Some j ->
-       let i = add (add s.fp_pos skip) j in
-       let subtract_cr =
-         if (&&) ((&&) cr (Nat.ltb s.fp_pos i))
-              (Z.eqb (nth (sub i (S O)) s.fp_buf Z0) fp_cr_byte)
-         then fp_cr_subtract
-         else fp_cr_else
-       in
-       ((RlLine
-       (firstn (sub (sub i s.fp_pos) subtract_cr) (skipn s.fp_pos s.fp_buf))),
-       (set_pos s (S i)))
-     | None ->
-       if s.fp_at_end
-       then if Nat.eqb s.fp_pos (length s.fp_buf)
-            then (RlEOF, s)
-            else ((RlLine (skipn s.fp_pos s.fp_buf)),
-                   (set_pos s (length s.fp_buf)))
-       else (match shift s with
-             | Ok s' ->
-               read_line_loop f d cr (sub (length s.fp_buf) s.fp_pos) s'
-             | Fail e -> ((RlFail e), s)))
-
-(** val pending : fp -> nat **)
-
-let pending s =
-  add
-    (add (match s.fp_rc with
-          | RcHeader h -> length h
-          | _ -> O) (length s.fp_os.os_src)) (length s.fp_file)
-
-(** val line_fuel : fp -> nat **)
-
-let line_fuel s =
-  add (add (pending s) rc_magic_size) (S (S (S (S O))))
-
-(** val read_line : z -> bool -> fp -> rl * fp **)
-
-let read_line d cr s =
-  read_line_loop (line_fuel s) d cr O s
-
-(** val read_all_loop : nat -> z -> bool -> fp -> z list list res * fp **)
-
-let rec read_all_loop n0 d cr s =
-  match n0 with
-  | O -> ((Fail EFuel), s)
-  | S n' ->
-    let (r, s') = read_line d cr s in
-    (match r with
-     | RlLine l ->
-       let (r0, s'') = read_all_loop n' d cr s' in
-       (match r0 with
-        | Ok ls -> ((Ok (l :: ls)), s'')
-        | Fail e -> ((Fail e), s''))
-     | RlEOF -> ((Ok []), s')
-     | RlFail e -> ((Fail e), s'))
-
-(** val read_all : z -> bool -> fp -> z list list res * fp **)
-
-let read_all d cr s =
-  read_all_loop (add (add (pending s) (length s.fp_buf)) (S (S O))) d cr s
+     let (p, o'') = rc_read_or_eof amount rc o' in
+     let (r0, _) = p in (r0, o'')
+   | Fail e -> ((Fail e), o'))
